@@ -201,9 +201,28 @@ def shrink(plan):
                 yield p
 
 
+_WARM_MODULES = [
+    "mpf.config_players.blinkenlight_player", "mpf.config_players.block_event_player", "mpf.config_players.coil_player",
+    "mpf.config_players.event_player", "mpf.config_players.flasher_player", "mpf.config_players.hardware_sound_player",
+    "mpf.config_players.light_player", "mpf.config_players.queue_event_player", "mpf.config_players.queue_relay_player",
+    "mpf.config_players.random_event_player", "mpf.config_players.score_queue_player",
+    "mpf.config_players.segment_display_player", "mpf.config_players.show_player", "mpf.config_players.variable_player",
+    "mpf.core.async_mode", "mpf.core.ball_controller", "mpf.core.bcp.bcp", "mpf.core.light_controller",
+    "mpf.core.mode_controller", "mpf.core.randomizer", "mpf.core.service_controller", "mpf.core.settings_controller",
+    "mpf.core.show_controller", "mpf.modes.attract.code.attract", "mpf.modes.game.code.game",
+    "mpf.platforms.driver_light_platform", "mpf.platforms.virtual"]
+
+
 def warm():
+    """Zygote: parse the YAML once and import (only import) the modules every boot loads by name."""
+    import importlib
     from sim.machine import preload
     preload("c11")
+    for mod in _WARM_MODULES:
+        try:
+            importlib.import_module(mod)
+        except ImportError:
+            pass
 
 
 def on_crash(ctx, crash):
@@ -465,7 +484,8 @@ class Harness:
         actual = g.player_list[num - 1].vars.get(var, _MISSING)
         if actual is _MISSING or M.canon_value(actual) != M.canon_value(value):
             self.bad("var_event", "value differs from variable: %s" % var,
-                     "player_%s value=%r but player %d's variable is %r" % (var, value, num, actual))
+                     "player_%s value=%r but player %d's variable is %s"
+                     % (var, value, num, "<not set>" if actual is _MISSING else repr(actual)))
         rep = self.replica.setdefault(num, {})
         try:
             exp_change = value - prev
